@@ -184,6 +184,21 @@ def run_area(ctx, name, area, exact):
         rows, cols = grid.get_linesample(lon2, lat2, area)
         xs, ys = fwd(p_dict)
         results["linesample"] = (xs, ys, [(int(r), int(c)) for r, c in zip(rows.ravel(), cols.ravel())])
+        # 1b the same points as a 2-D array in another memory order, projected by worker processes: same cells, point by point
+        if n >= 6 and ctx.rng.random() < (0.35 if ctx.quick else 0.7):
+            b_ = n // 2
+            lonC, latC = lons[:2 * b_].reshape(2, b_), lats[:2 * b_].reshape(2, b_)
+            # reference: the same worker-process path on the C-ordered array (border ties may differ between Proj and Proj_MP, memory order may not)
+            r1, c1 = grid.get_linesample(lonC, latC, area, nprocs=2)
+            for order_name, conv in (("F-ordered", np.asfortranarray), ("transposed-view", lambda a_: np.ascontiguousarray(a_.T).T)):
+                r2, c2 = grid.get_linesample(conv(lonC), conv(latC), area, nprocs=2)
+                ctx.count("linesample.nprocs2." + order_name)
+                if not (np.array_equal(np.ma.filled(r1, -9), np.ma.filled(r2, -9)) and np.array_equal(np.ma.filled(c1, -9), np.ma.filled(c2, -9))):
+                    k_ = int(np.flatnonzero((np.ma.filled(r1, -9) != np.ma.filled(r2, -9)).ravel() | (np.ma.filled(c1, -9) != np.ma.filled(c2, -9)).ravel())[0])
+                    ctx.fail("grid.get_linesample", f"{order_name} 2-D lon/lat arrays with nprocs=2: point {k_} ({float(lonC.ravel()[k_]):.5f}, {float(latC.ravel()[k_]):.5f}) is attributed to "
+                             f"(row {np.ma.filled(r2, -9).ravel()[k_]}, col {np.ma.filled(c2, -9).ravel()[k_]}) but to (row {np.ma.filled(r1, -9).ravel()[k_]}, col {np.ma.filled(c1, -9).ravel()[k_]}) "
+                             f"with the C-ordered array", {"area": name, "shape": [H, W], "extent": [float(v) for v in area.area_extent], "memory_order": order_name,
+                                                                            "lons": lonC.tolist(), "lats": latC.tolist()}, tags={"cause": "memory-order-mp"}, size=n)
         # 2 get_image_from_lonlats (cell id image, fill 0)
         img = grid.get_image_from_lonlats(lon2, lat2, area, cellid, fill_value=0).ravel()
         results["image_from_lonlats"] = (xs, ys, [None if v == 0 else divmod(int(v) - 1, W) for v in img])
